@@ -47,6 +47,8 @@ def showOut : Out → String
   | .discErr id => s!"discerr {id}"
   | .ev lid n p => s!"ev {lid} " ++ Hex.encText n ++ " " ++ Hex.encText p
   | .notified rid => s!"notified {rid}"
+  | .legacy rid clean => s!"legacy {rid} " ++ (if clean then "cb" else "eb")
+  | .legacyGone rid => s!"legacygone {rid}"
   | .exc e => "exc " ++ excName e
 
 def isGhost : Out → Bool
@@ -73,6 +75,8 @@ def decIn : List String → Option In
   | ["bytes", h] => (Hex.decodeText h).map .bytes
   | ["lost"] => some .lost
   | ["whendisc", r] => r.toNat?.map .whenDisc
+  | ["ondisc", r] => r.toNat?.map .onDisc
+  | ["reason", b] => some (.reason (b = "1"))
   | ["addl", n, l, c] => do pure (.addL (← Hex.decodeText n) (← l.toNat?) (← c.toNat?))
   | ["reml", n, l, c] => do pure (.remL (← Hex.decodeText n) (← l.toNat?) (← c.toNat?))
   | _ => none
@@ -82,6 +86,8 @@ def decSIn : List String → Option SIn
   | "tl" :: rest => (decTL rest).map .tl
   | ["lost"] => some .lost
   | ["whendisc", r] => r.toNat?.map .whenDisc
+  | ["ondisc", r] => r.toNat?.map .onDisc
+  | ["reason", b] => some (.reason (b = "1"))
   | ["addl", n, l, c] => do pure (.addL (← Hex.decodeText n) (← l.toNat?) (← c.toNat?))
   | ["reml", n, l, c] => do pure (.remL (← Hex.decodeText n) (← l.toNat?) (← c.toNat?))
   | _ => none
